@@ -3,6 +3,7 @@ package main
 // Contract stubs for library functions (every one is part of the claims that use it).
 
 import (
+	"path"
 	"fmt"
 	"go/types"
 	"strings"
@@ -551,6 +552,11 @@ func init() {
 
 type urlObj struct{ src *Term }
 
+type jsonDecoder struct {
+	b      *BytesV
+	strict bool
+}
+
 func init() {
 	intercepts["bytes.NewReader"] = func(ex *Exec, fr *Frame, a []Value, s ssa.Instruction) Value {
 		return ex.opaquePtr("bytes.Reader", ex.bytesOf(a[0]))
@@ -558,14 +564,15 @@ func init() {
 	intercepts["encoding/json.NewDecoder"] = func(ex *Exec, fr *Frame, a []Value, s ssa.Instruction) Value {
 		iv := a[0].(*IfaceV)
 		rd := ex.opaqueOf(iv.v, "bytes.Reader")
-		return ex.opaquePtr("json.Decoder", rd.data)
+		return ex.opaquePtr("json.Decoder", &jsonDecoder{b: rd.data.(*BytesV)})
 	}
 	intercepts["(*encoding/json.Decoder).DisallowUnknownFields"] = func(ex *Exec, fr *Frame, a []Value, s ssa.Instruction) Value {
+		ex.opaqueOf(a[0], "json.Decoder").data.(*jsonDecoder).strict = true
 		return nil
 	}
 	intercepts["(*encoding/json.Decoder).Decode"] = func(ex *Exec, fr *Frame, a []Value, s ssa.Instruction) Value {
-		d := ex.opaqueOf(a[0], "json.Decoder")
-		return ex.jsonUnmarshal(d.data.(*BytesV), a[1].(*IfaceV))
+		d := ex.opaqueOf(a[0], "json.Decoder").data.(*jsonDecoder)
+		return ex.jsonUnmarshalOpt(d.b, a[1].(*IfaceV), d.strict)
 	}
 	// reflect: only what util.UnmarshalChain uses
 	intercepts["reflect.ValueOf"] = func(ex *Exec, fr *Frame, a []Value, s ssa.Instruction) Value {
@@ -656,5 +663,86 @@ func init() {
 	vx("UrlString", func(ex *Exec, fr *Frame, a []Value, s ssa.Instruction) Value { return ex.tt.UF("url_string", SString, a[0].(*Term)) })
 	vx("UrlValid", func(ex *Exec, fr *Frame, a []Value, s ssa.Instruction) Value { return ex.tt.UF("url_valid", SBool, a[0].(*Term)) })
 	vx("JsonValid", func(ex *Exec, fr *Frame, a []Value, s ssa.Instruction) Value { return ex.tt.UF("jvalid_any", SBool, a[0].(*Term)) })
+	// the JSON text has object members that the struct type of the sample pointer does not declare
+	vx("JsonUnknownFields", func(ex *Exec, fr *Frame, a []Value, s ssa.Instruction) Value {
+		iv := a[1].(*IfaceV)
+		st := iv.typ.Underlying().(*types.Pointer).Elem()
+		return jsonExtra(ex.tt, typeKey(st), a[0].(*Term))
+	})
 	vx("JsonOfString", func(ex *Exec, fr *Frame, a []Value, s ssa.Instruction) Value { return ex.tt.UF("jenc_string", SString, a[0].(*Term)) })
+}
+
+// ---- kernel loop skeleton: Signal, time
+
+func init() {
+	// (*api).Signal starts a goroutine that moves at most one accepted request from the queue into the
+	// one-slot buffer and closes the returned channel; sequential contract: that effect may or may not
+	// have happened by the time the loop continues.
+	signal := func(qfield string) func(ex *Exec, fr *Frame, a []Value, s ssa.Instruction) Value {
+		return func(ex *Exec, fr *Frame, a []Value, s ssa.Instruction) Value {
+			ex.H.noteStub("api.Signal / aio.Signal: the goroutine's effect (move <= 1 entry from the queue to the one-slot buffer) happens nondeterministically before the loop continues")
+			p := ex.ptr(a[0])
+			t := p.obj.typ
+			if t == nil {
+				t = s.(*ssa.Call).Call.Args[0].Type().(*types.Pointer).Elem()
+			}
+			buf := ex.fget(p, t, "buffer")
+			q := ex.chanOf(ex.fget(p, t, qfield))
+			if ex.isNilValue(buf).IsTrue() && q != nil && len(q.buf) > 0 {
+				if ex.choose(2, nil, "signal-buffers-an-entry") == 1 {
+					v := q.buf[0]
+					q.buf = q.buf[1:]
+					ex.fset(p, t, "buffer", v)
+				}
+			}
+			ch := &ChanObj{cap: 0, closed: true}
+			return &OpaqueV{kind: "chan", data: ch}
+		}
+	}
+	intercepts["(*"+repoMod+"/internal/api.api).Signal"] = signal("sq")
+	intercepts["(*"+repoMod+"/internal/aio.aio).Signal"] = signal("cq")
+	intercepts["time.After"] = func(ex *Exec, fr *Frame, a []Value, s ssa.Instruction) Value {
+		return &OpaqueV{kind: "chan-nil"} // never fires within one step of the skeleton
+	}
+	intercepts["(time.Time).UnixMilli"] = func(ex *Exec, fr *Frame, a []Value, s ssa.Instruction) Value {
+		ex.W.advanceTime(ex)
+		return ex.W.now
+	}
+}
+
+// ---- http server construction (VH_H_Routes): listener and validator registration are irrelevant to the
+// routing configuration; gin itself (New, Use, Group, route registration) is executed from source.
+func init() {
+	intercepts["net.Listen"] = func(ex *Exec, fr *Frame, a []Value, s ssa.Instruction) Value {
+		ex.H.noteStub("net.Listen: succeeds with an opaque listener")
+		rt := s.(*ssa.Call).Call.Value.(*ssa.Function).Signature.Results().At(0).Type()
+		return &TupleV{vs: []Value{&IfaceV{typ: rt, v: &OpaqueV{kind: "net.Listener"}}, nilErr()}}
+	}
+	// binding.Validator.Engine(): custom validator registration does not affect routing
+	intercepts["opaque:extern.Engine"] = func(ex *Exec, fr *Frame, a []Value, s ssa.Instruction) Value { return &IfaceV{} }
+	// concrete-only path helpers used by gin's route registration
+	intercepts["path.Join"] = func(ex *Exec, fr *Frame, a []Value, s ssa.Instruction) Value {
+		var parts []string
+		for _, e := range ex.anySlice(a[0]) {
+			parts = append(parts, ex.str(e, "path.Join element"))
+		}
+		return ex.tt.Str(path.Join(parts...))
+	}
+	intercepts["github.com/gin-gonic/gin/internal/bytesconv.StringToBytes"] = func(ex *Exec, fr *Frame, a []Value, s ssa.Instruction) Value {
+		return &BytesV{isNil: ex.tt.Bool(false), s: a[0].(*Term)}
+	}
+	intercepts["github.com/gin-gonic/gin/internal/bytesconv.BytesToString"] = func(ex *Exec, fr *Frame, a []Value, s ssa.Instruction) Value {
+		return ex.bytesOf(a[0]).s
+	}
+	intercepts["bytes.Count"] = func(ex *Exec, fr *Frame, a []Value, s ssa.Instruction) Value {
+		x, okx := ex.bytesOf(a[0]).s.StrVal()
+		y, oky := ex.bytesOf(a[1]).s.StrVal()
+		if !okx || !oky {
+			panic(ex.unsupported("bytes.Count on symbolic bytes"))
+		}
+		return ex.tt.BV(uint64(strings.Count(x, y)), 64)
+	}
+	intercepts["github.com/gin-gonic/gin.nameOfFunction"] = func(ex *Exec, fr *Frame, a []Value, s ssa.Instruction) Value {
+		return ex.tt.Str("handler")
+	}
 }
